@@ -51,6 +51,22 @@ def _check_chunk(cases):
 
         for name, e in c["det"].items():
             run(name, e, impl=c["impl"].get(name))
+        # -m within: percentage of absolute errors in the event of the bin type (thresholds 1, 2)
+        valid = ~(np.isnan(obs) | np.isnan(fcst))
+        for bt, e in c.get("within", {}).items():
+            try:
+                import verif.util
+                iv = verif.util.get_intervals(bt, [1, 2] if "within" in bt else [1])[0]
+                with quiet():
+                    got = verif.metric.Within().compute_from_obs_fcst(obs[valid], fcst[valid], iv)
+                n += 1
+                want = expr.ev(e)
+                if not expr.agrees(want, got):
+                    divs.append(("metric:within", False, "within -b %s on obs=%r fcst=%r: expected %r observed %r" % (bt, c["o"], c["f"], want, float(got)),
+                                 {"kind": "metric", "metric": "within", "bt": bt, "case": {"o": c["o"], "f": c["f"]}, "expected": want, "observed": float(got)}))
+            except Exception as ex:
+                divs.append((exc_site(ex), False, "within -b %s on obs=%r fcst=%r: %r" % (bt, c["o"], c["f"], ex),
+                             {"kind": "metric", "metric": "within", "bt": bt, "case": {"o": c["o"], "f": c["f"]}}))
         for name, per in c["agg"].items():
             for aggname, e in per.items():
                 run(name, e, aggname=aggname)
